@@ -79,11 +79,12 @@ def case_strategy():
     return top.flatmap(with_inputs)
 
 
-def build(tree, default_env=False):
+def build(tree, default_env=False, late=False):
+    """late: environment support is switched on through the root's property after the whole tree has been assembled"""
     from jsonargparse import ArgumentParser
 
     def mk(n, top):
-        p = ArgumentParser(exit_on_error=False, prog="app", env_prefix="APP", default_env=default_env) if top else ArgumentParser(exit_on_error=False)
+        p = ArgumentParser(exit_on_error=False, prog="app", env_prefix="APP", default_env=default_env and not late) if top else ArgumentParser(exit_on_error=False)
         p.add_argument("--cfg", action="config")
         for o, d in n["opts"].items():
             p.add_argument("--" + o, type=int, default=d)
@@ -101,6 +102,8 @@ def build(tree, default_env=False):
                     sc.add_subcommand(name, cp)
                     nxt.append((cp, ch))
         level = nxt
+    if default_env and late:
+        root.default_env = True
     return root
 
 
@@ -211,7 +214,9 @@ def run_case(ctx, case):
             r = build(tree).parse_env(env_vars(env))
         else:
             os.environ.update(env_vars(env))
-            r = build(tree, default_env=True).parse_args((["--cfg", json.dumps(cfg)] if cfg else []) + path)
+            late = (len(path) + len(json.dumps(env))) % 2 == 1  # (a pure function of the case)
+            ctx.cls("default_env:" + ("set-after-assembly" if late else "constructor"))
+            r = build(tree, default_env=True, late=late).parse_args((["--cfg", json.dumps(cfg)] if cfg else []) + path)
         got = norm(r)
     except ArgumentError as ex:
         got = "ERR"
